@@ -4574,12 +4574,12 @@ load_message (DBusMessageLoader *loader,
           goto failed;
         }
 
-      message->n_unix_fds_allocated = message->n_unix_fds = n_unix_fds;
-      loader->n_unix_fds -= n_unix_fds;
-      memmove (loader->unix_fds, loader->unix_fds + n_unix_fds, loader->n_unix_fds * sizeof (loader->unix_fds[0]));
-
-      if (loader->unix_fds_change)
-        loader->unix_fds_change (loader->unix_fds_change_data);
+      /* The message only has room for the fds so far: they stay with the
+       * loader until nothing below can fail any more, otherwise a failure
+       * for lack of memory would lose them (the caller drops the message
+       * and tries again later). */
+      message->n_unix_fds_allocated = n_unix_fds;
+      message->n_unix_fds = 0;
     }
   else
     message->unix_fds = NULL;
@@ -4622,6 +4622,19 @@ load_message (DBusMessageLoader *loader,
 
   /* don't waste more than 2k of memory */
   _dbus_string_compact (&loader->data, 2048);
+
+#ifdef HAVE_UNIX_FD_PASSING
+  if (n_unix_fds > 0)
+    {
+      /* nothing can fail any more: hand the fds over to the message */
+      message->n_unix_fds = n_unix_fds;
+      loader->n_unix_fds -= n_unix_fds;
+      memmove (loader->unix_fds, loader->unix_fds + n_unix_fds, loader->n_unix_fds * sizeof (loader->unix_fds[0]));
+
+      if (loader->unix_fds_change)
+        loader->unix_fds_change (loader->unix_fds_change_data);
+    }
+#endif
 
   _dbus_assert (_dbus_string_get_length (&message->header.data) == header_len);
   _dbus_assert (_dbus_string_get_length (&message->body) == body_len);
